@@ -125,7 +125,7 @@ func init() {
 			r.Check(okS && okD, "diffCmd.Execute/success-requires-both", last.Pos(), "status 0 requires success ∧ ¬hadDiff")
 			// hadDiff is set exactly when the computed diff is non-empty; a missing file reads as empty
 			set := false
-			ast.Inspect(fi.Decl.Body, func(nd ast.Node) bool {
+			fi.inspect(fi.Decl.Body, func(nd ast.Node) bool {
 				as, ok := nd.(*ast.AssignStmt)
 				if !ok || len(as.Lhs) != 1 || fi.varOf(as.Lhs[0]) == nil || fi.varOf(as.Lhs[0]).Name() != "hadDiff" || as.Tok == token.DEFINE {
 					return true
@@ -150,7 +150,7 @@ func init() {
 					continue
 				}
 				onErrs, onOp := false, false
-				ast.Inspect(fi.Decl.Body, func(nd ast.Node) bool {
+				fi.inspect(fi.Decl.Body, func(nd ast.Node) bool {
 					as, ok := nd.(*ast.AssignStmt)
 					if !ok || len(as.Lhs) != 1 || as.Tok == token.DEFINE || fi.varOf(as.Lhs[0]) == nil || fi.varOf(as.Lhs[0]).Name() != "success" {
 						return true
@@ -238,7 +238,7 @@ func init() {
 				if r.Need(fi, s.name) == nil {
 					continue
 				}
-				ast.Inspect(fi.Decl.Body, func(nd ast.Node) bool {
+				fi.inspect(fi.Decl.Body, func(nd ast.Node) bool {
 					rs, ok := nd.(*ast.RangeStmt)
 					if !ok {
 						return true
@@ -263,7 +263,7 @@ func init() {
 			g := c.Fn(c.W, "Generate")
 			if g != nil {
 				ok := false
-				ast.Inspect(g.Decl.Body, func(nd ast.Node) bool {
+				g.inspect(g.Decl.Body, func(nd ast.Node) bool {
 					if mk := g.isBuiltin0(nd, "make"); mk != nil && len(mk.Args) == 2 {
 						if l := g.isBuiltin(mk.Args[1], "len"); l != nil && types.TypeString(g.Info.TypeOf(mk), nil) == "[]"+pathW+".GenerateResult" {
 							ok = true
@@ -304,7 +304,7 @@ func init() {
 			cm := r.Need(c.Fn(c.W, "GenerateResult.Commit"), "GenerateResult.Commit")
 			if cm != nil {
 				var wf *ast.CallExpr
-				for _, cl := range callsIn(cm.Decl.Body) {
+				for _, cl := range cm.callsDeep(cm.Decl.Body) {
 					if n := cm.calleeName(cl); n == "io/ioutil.WriteFile" || n == "os.WriteFile" {
 						wf = cl
 					}
@@ -332,7 +332,7 @@ func init() {
 			g := r.Need(c.Fn(c.W, "Generate"), "Generate")
 			if g != nil {
 				n := 0
-				ast.Inspect(g.Decl.Body, func(nd ast.Node) bool {
+				g.inspect(g.Decl.Body, func(nd ast.Node) bool {
 					as, ok := nd.(*ast.AssignStmt)
 					if !ok {
 						return true
@@ -377,7 +377,7 @@ func init() {
 				return
 			}
 			var src *types.Var
-			ast.Inspect(g.Decl.Body, func(nd ast.Node) bool {
+			g.inspect(g.Decl.Body, func(nd ast.Node) bool {
 				if as, ok := nd.(*ast.AssignStmt); ok {
 					for i, l := range as.Lhs {
 						if f := g.selField(l); f != nil && f.Name() == "Content" && i < len(as.Rhs) {
@@ -420,7 +420,7 @@ func init() {
 			r.Check(fromFrame, "Content-source/frame", g.Decl.Pos(), "the stored bytes originate from gen.frame")
 			// frame returns nothing when no injector wrote to the buffer
 			if t := traceOf(c, r, "gen.frame"); t != nil {
-				r.Check(strings.HasPrefix(t.text, "ALT[(recv.buf.Len()==0)]{ «RETURN» }{ }"), "frame/empty-when-nothing-generated", t.fi.Decl.Pos(), "frame returns nothing when the body buffer is empty")
+				r.Check(strings.HasPrefix(t.text, "ALT[(recv.buf.Len()==0)]{ }{ "), "frame/empty-when-nothing-generated", t.fi.Decl.Pos(), "frame returns nothing when the body buffer is empty")
 				fr := c.Fn(c.W, "gen.frame")
 				first := fr.returnsOf()[0]
 				r.Check(fr.isNilIdent(first.Results[0]), "frame/empty-result-is-nil", first.Pos(), "the empty result is nil")
@@ -433,7 +433,7 @@ func init() {
 			if ld != nil {
 				found := false
 				var flagsField ast.Expr
-				ast.Inspect(ld.Decl.Body, func(nd ast.Node) bool {
+				ld.inspect(ld.Decl.Body, func(nd ast.Node) bool {
 					kv, ok := nd.(*ast.KeyValueExpr)
 					if !ok {
 						return true
@@ -455,7 +455,7 @@ func init() {
 				r.Check(found, "load/tags-include-wireinject", ld.Decl.Pos(), "BuildFlags is initialised with -tags=wireinject")
 				_ = flagsField
 				// later writes to BuildFlags only extend element 0 with += " " + tags
-				ast.Inspect(ld.Decl.Body, func(nd ast.Node) bool {
+				ld.inspect(ld.Decl.Body, func(nd ast.Node) bool {
 					as, ok := nd.(*ast.AssignStmt)
 					if !ok {
 						return true
@@ -488,12 +488,7 @@ func init() {
 			t := traceOf(c, r, "gen.frame")
 			if t != nil {
 				// top-level token order: constraint comment before `package`
-				var top []string
-				for _, n := range t.nodes {
-					if tk, ok := n.(*emTok); ok {
-						top = append(top, tk.toks...)
-					}
-				}
+				top := spineToks(t.nodes)
 				ci, pi := -1, -1
 				for i, x := range top {
 					if strings.HasPrefix(x, "//+build !wireinject") || strings.HasPrefix(x, "//go:build !wireinject") {
@@ -544,7 +539,7 @@ func init() {
 			hit := false
 			for _, fi := range c.all {
 				if fi.Pkg == c.Cmd {
-					for _, cl := range callsIn(fi.Decl.Body) {
+					for _, cl := range fi.callsDeep(fi.Decl.Body) {
 						if fileReaders[fi.calleeName(cl)] {
 							hit = true
 							r.Control("file-read detector (ReadFile in cmd/wire)", true, cl.Pos())
@@ -618,7 +613,7 @@ func init() {
 				}
 				// opts.Tags = cmd.tags
 				okT := false
-				ast.Inspect(fi.Decl.Body, func(nd ast.Node) bool {
+				fi.inspect(fi.Decl.Body, func(nd ast.Node) bool {
 					if as, ok := nd.(*ast.AssignStmt); ok && len(as.Lhs) == 1 {
 						if f := fi.selField(as.Lhs[0]); f != nil && f.Name() == "Tags" {
 							if f2 := fi.selField(as.Rhs[0]); f2 != nil && f2.Name() == "tags" && fi.unconditionalIn(as, fi.Decl.Body) == false {
@@ -648,7 +643,7 @@ func init() {
 			templates := func(rr *reachResult) map[string]string {
 				out := map[string]string{}
 				for fi := range rr.in {
-					for _, cl := range callsIn(fi.Decl.Body) {
+					for _, cl := range fi.callsDeep(fi.Decl.Body) {
 						n := fi.calleeName(cl)
 						if n != "fmt.Errorf" && n != "errors.New" {
 							continue
@@ -693,7 +688,7 @@ func init() {
 				}
 				seq := func(f *FuncInfo) []string {
 					var out []string
-					for _, cl := range callsIn(f.Decl.Body) {
+					for _, cl := range f.callsDeep(f.Decl.Body) {
 						n := f.calleeName(cl)
 						for _, o := range order {
 							if n == o {
@@ -707,7 +702,7 @@ func init() {
 				if name == "generateInjectors" {
 					// solve and checkCalls are reached through gen.inject
 					pos := -1
-					for i, cl := range callsIn(fi.Decl.Body) {
+					for i, cl := range fi.callsDeep(fi.Decl.Body) {
 						if fi.calleeName(cl) == pathW+".gen.inject" {
 							pos = i
 						}
@@ -718,7 +713,7 @@ func init() {
 				}
 				r.Check(strings.Join(got, ",") == strings.Join(order, ","), name+"/pipeline-order", fi.Decl.Pos(), "pipeline: %s", strings.ReplaceAll(strings.Join(got, " → "), pathW+".", ""))
 				// each stage's failure records and continues
-				for _, cl := range callsIn(fi.Decl.Body) {
+				for _, cl := range fi.callsDeep(fi.Decl.Body) {
 					n := fi.calleeName(cl)
 					isStage := false
 					for _, o := range order {
@@ -807,7 +802,7 @@ func init() {
 				return
 			}
 			ok := false
-			ast.Inspect(fi.Decl.Body, func(nd ast.Node) bool {
+			fi.inspect(fi.Decl.Body, func(nd ast.Node) bool {
 				rs, isR := nd.(*ast.RangeStmt)
 				if !isR || fi.isCall(rs.X, "go/types.Scope.Names") == nil {
 					return true
@@ -851,7 +846,7 @@ func init() {
 			}
 			// the packages loop skips only the wire package itself
 			okPk := false
-			ast.Inspect(fi.Decl.Body, func(nd ast.Node) bool {
+			fi.inspect(fi.Decl.Body, func(nd ast.Node) bool {
 				rs, isR := nd.(*ast.RangeStmt)
 				if !isR || types.TypeString(fi.Info.TypeOf(rs.X), nil) != "[]*golang.org/x/tools/go/packages.Package" {
 					return true
@@ -881,7 +876,7 @@ func init() {
 			}
 			e := newEmitter(c, fi)
 			var loop *ast.ForStmt
-			ast.Inspect(fi.Decl.Body, func(nd ast.Node) bool {
+			fi.inspect(fi.Decl.Body, func(nd ast.Node) bool {
 				f, ok := nd.(*ast.ForStmt)
 				if !ok || loop != nil || f.Cond == nil {
 					return true
@@ -966,7 +961,7 @@ func init() {
 				}
 			}
 			cases := map[string]bool{}
-			ast.Inspect(sh.Decl.Body, func(nd ast.Node) bool {
+			sh.inspect(sh.Decl.Body, func(nd ast.Node) bool {
 				if ts, ok := nd.(*ast.TypeSwitchStmt); ok {
 					for _, s := range ts.Body.List {
 						for _, e := range s.(*ast.CaseClause).List {
